@@ -201,11 +201,216 @@ def ob_iter_suspended(w, P):
     return x.result()
 
 
+def ob_triple(w, P):
+    """three overlapping calls on one key: client A's call is interrupted at a symbolic event by client B's complete
+    call, which is itself interrupted at a symbolic event by client C's complete call (three handles on the
+    directory).  A call refused by the write lock has no effect; the results of the others and the final state are
+    those of the admitted calls executed one at a time in some order."""
+    import itertools
+    x = Ctx(w, P, cull_limit=0, kinds=('int',), tags=False)
+    c = x.c
+    core = w.L.core
+    for rv in x.s.rowvars:
+        assume(rv['expire_null'].z)
+    k, kc, rc = x.key('keyA')
+    names = ['A', 'B', 'C']
+    ops = dict(zip(names, P['ops'].split('+')))
+    vals = {n: x.s.v_int('val%s' % n, -2 ** 30, 2 ** 30) for n in names}
+    handles = {'A': c, 'B': w.clone_handle(c), 'C': w.clone_handle(c)}
+    res, tms = {}, {}
+
+    def run(n, tid):
+        w.tid, old = tid, w.tid
+        k0 = len(w.times)
+        try:
+            try:
+                res[n] = run_op(handles[n], ops[n], k, vals[n])
+            except core.Timeout:
+                res[n] = 'timeout'
+            tms[n] = w.times[k0] if len(w.times) > k0 else None
+        finally:
+            w.tid = old
+    w.interfere_at = x.s.v_int('at', 0, P.get('max_events', 10))
+    w.interfere_hook = lambda: run('B', 2)
+    w.interfere2_at = x.s.v_int('at2', 0, P.get('max_events', 10))
+    w.interfere2_hook = lambda: run('C', 3)
+    x.begin()
+    run('A', 1)
+    x.end()
+    if 'B' in res and 'C' in res:
+        flag('nested_twice')
+    tA = tms.get('A')
+    if tA is None:
+        tA = 0
+    admitted = [n for n in names if n in res and res[n] != 'timeout']
+    if any(res.get(n) == 'timeout' for n in names):
+        flag('timeout_seen')
+    alts = []
+    for order in itertools.permutations(admitted):
+        T = x.T0
+        conj = []
+        for n in order:
+            T, r = ref_op(T, ops[n], kc, rc, vals[n], tms[n] if tms[n] is not None else tA)
+            conj.append(ret_matches(ops[n], res[n], r))
+        conj.append(rm.table_eq(T, x.T1))
+        alts.append(AndL(conj))
+    x.add('C05,C14', 'results and final state are those of the admitted calls executed one at a time in some order; a refused call has no effect', OrL(alts))
+    x.add('C05,C08', 'counters match afterwards', state.inv_table(x.T1))
+    return x.result()
+
+
+def ob_pair_file(w, P):
+    """a file-backed value is looked up / popped by client A while client B replaces it with another file-backed
+    value, replaces it with an in-database value or removes it: A gets the old value or the new one in full -- never a
+    mixture, a partial file or an unexpected exception; a lock-free lookup may instead report a miss (the tolerated
+    anomaly), a transactional pop may not; afterwards rows and value files agree and nothing is left over."""
+    x = Ctx(w, P, kinds=('file',), tags=False, key_lo=0, key_hi=1, min_file_size=0, alive_sym=False, cull_limit=0)
+    for rv in x.s.rowvars:
+        assume(rv['expire_null'].z)
+    c = x.c
+    core = w.L.core
+    other = w.clone_handle(c)
+    k = int(x.s.rowvars[0]['key'])
+    opA, opB = P['a'], P['b']
+    vb = x.s.v_int('valB', -2 ** 30, 2 ** 30)
+    res = {}
+
+    def intruder():
+        w.tid, old = 2, w.tid
+        try:
+            try:
+                if opB == 'setf':
+                    res['B'] = other.set(k, b'xyzw')
+                elif opB == 'seti':
+                    res['B'] = other.set(k, vb)
+                elif opB == 'delete':
+                    res['B'] = other.delete(k)
+                elif opB == 'pop':
+                    res['B'] = other.pop(k, default=None)
+            except core.Timeout:
+                res['B'] = 'timeout'
+        finally:
+            w.tid = old
+    w.interfere_at = x.s.v_int('at', 0, P.get('max_events', 14))
+    w.interfere_hook = intruder
+    x.begin()
+    try:
+        if opA == 'get':
+            rA = ('ok', c.get(k, default=None))
+        elif opA == 'getitem':
+            rA = ('ok', c[k])
+        elif opA == 'pop':
+            rA = ('ok', c.pop(k, default=None))
+        elif opA == 'peekitem':
+            rA = ('ok', c.peekitem()[1])
+        else:
+            raise ValueError(opA)
+    except KeyError:
+        rA = ('ok', None)
+    except core.Timeout:
+        rA = ('timeout', None)
+    x.end()
+    if 'B' not in res:
+        return x.result()
+    flag('interleaved')
+    old = x.T0.lookup(Cell(INT, k), Cell(INT, 1))
+    v = rA[1]
+    b_admitted = res['B'] != 'timeout'
+    is_old = x.value_matches(v, old) if v is not None else False
+    is_new = False
+    if b_admitted and v is not None:
+        if opB == 'setf':
+            is_new = isinstance(v, bytes) and v == b'xyzw'
+        elif opB == 'seti':
+            is_new = EqR(zv(v), zv(vb)) if is_num_like(v) else False
+    b_removed = b_admitted and opB in ('delete', 'pop')
+    lockfree = opA in ('get', 'getitem', 'peekitem')
+    if rA[0] == 'timeout':
+        flag('timeout_seen')
+        x.add('C05,C14', 'a pop refused by the lock leaves the other call in full effect', True)
+    else:
+        miss_ok = (v is None) and (b_removed or (lockfree and b_admitted))
+        x.add('C05,C01', 'the reader gets the old value or the new value in full (or a miss where one is allowed) -- never a mixture', Or(is_old, is_new, miss_ok))
+    if opB == 'pop' and b_admitted and rA[0] != 'timeout' and opA == 'pop':
+        rb = res['B']
+        x.add('C05', 'two overlapping pops: exactly one of them gets the value', Or(And(is_old, rb is None), And(v is None, x.value_matches(rb, old) if rb is not None else False)))
+    x.add('C05,C08', 'afterwards counters match', state.inv_table(x.T1))
+    x.add('C05,C08', 'afterwards every row has its value file and no file is left over', x.s.fs_inv(x.T1))
+    return x.result()
+
+
+def ob_store_vs_prune(w, P):
+    """client A stores a file-backed value under a new key while client B removes (delete / pop / replace by an
+    in-database value) the last file-backed item living in the very sub-directory A's new value file is going to:
+    B's removal prunes the emptied directory between any two of A's file operations.  Both calls take effect."""
+    x = Ctx(w, P, kinds=('file',), tags=False, key_lo=0, key_hi=1, min_file_size=0, alive_sym=False, cull_limit=0)
+    for rv in x.s.rowvars:
+        assume(rv['expire_null'].z)
+    w.urandom_prefix = bytes.fromhex('f05b')  # row 0's value file lives in f0/5b
+    c = x.c
+    core = w.L.core
+    other = w.clone_handle(c)
+    k = int(x.s.rowvars[0]['key'])
+    k2 = k + 5
+    opA, opB = P['a'], P['b']
+    res = {}
+
+    def intruder():
+        w.tid, old = 2, w.tid
+        try:
+            try:
+                res['B'] = {'delete': lambda: other.delete(k), 'pop': lambda: other.pop(k, default=None) is not None, 'seti': lambda: other.set(k, 5)}[opB]()
+            except core.Timeout:
+                res['B'] = 'timeout'
+        finally:
+            w.tid = old
+    w.interfere_at = x.s.v_int('at', 0, P.get('max_events', 14))
+    w.interfere_hook = intruder
+    x.begin()
+    try:
+        rA = {'setf': lambda: c.set(k2, b'abcd'), 'addf': lambda: c.add(k2, b'abcd'), 'pushf': lambda: c.push(b'abcd') is not None}[opA]()
+    except core.Timeout:
+        rA = 'timeout'
+    x.end()
+    if 'B' not in res:
+        return x.result()
+    flag('interleaved')
+    if w.interfered_at[1] == 'fs':
+        flag('between_file_operations')
+    if rA == 'timeout' or res['B'] == 'timeout':
+        flag('timeout_seen')
+    x.add('C05', 'the store succeeds (or is refused by the write lock) -- a concurrent removal that prunes the directory does not make it fail', rA is True or rA == 'timeout')
+    T1 = x.T1
+    if rA is True and opA != 'pushf':
+        it = T1.lookup(Cell(INT, k2), Cell(INT, 1))
+        x.add('C05,C01', 'the stored item is there with its value file', And(it.present, EqR(it.c['mode'].num, 2)))
+        got = c.get(k2)
+        x.add('C05,C01', 'and reads back in full', (got == b'abcd') if isinstance(got, bytes) else x.value_matches(got, it))
+    if res['B'] is True:
+        it0 = T1.lookup(Cell(INT, k), Cell(INT, 1))
+        x.add('C05', "the other client's removal took effect", Not(it0.present) if opB != 'seti' else And(it0.present, EqR(it0.c['mode'].num, 1)))
+    x.add('C05,C08', 'afterwards counters match', state.inv_table(T1))
+    x.add('C05,C08', 'afterwards every row has its value file and no file is left over', x.s.fs_inv(T1))
+    return x.result()
+
+
 def jobs(tier):
     out = []
     for how in ('iter', 'reversed', 'iterkeys'):
         out.append(dict(id='iter_suspended.%s' % how, func='ob_iter_suspended', params=dict(N=2, how=how, page=2), tags=['C05', 'C03'], weight=6,
                         functions=['core.Cache._iter', 'core.Cache.iterkeys', 'core.Cache.get', 'core.Cache.set']))
+    triples = ['incr+incr+incr', 'add+add+add', 'pop+pop+set', 'set+incr+delete', 'add+delete+add', 'incr+set+pop'] 
+    for t in triples:
+        out.append(dict(id='triple.%s' % t, func='ob_triple', params=dict(N=1, ops=t), tags=['C05', 'C08', 'C14'], weight=20, must_reach=['nested_twice'],
+                        functions=['core.Cache.%s' % f for f in set(t.split('+'))] + ['core.Cache._transact']))
+    for a in ('get', 'getitem', 'pop', 'peekitem'):
+        for b in ('setf', 'seti', 'delete', 'pop'):
+            out.append(dict(id='pair_file.%s.%s' % (a, b), func='ob_pair_file', params=dict(N=1, a=a, b=b), tags=['C05', 'C01', 'C08'], weight=6, must_reach=['interleaved'],
+                            functions=['core.Cache.get', 'core.Cache.pop', 'core.Cache.set', 'core.Cache.delete', 'core.Cache.peekitem', 'core.Disk.fetch', 'core.Disk.store', 'core.Disk.remove']))
+    for a in ('setf', 'addf', 'pushf'):
+        for b in ('delete', 'pop', 'seti'):
+            out.append(dict(id='store_vs_prune.%s.%s' % (a, b), func='ob_store_vs_prune', params=dict(N=1, a=a, b=b), tags=['C05', 'C01', 'C08'], weight=6,
+                            must_reach=['between_file_operations'], functions=['core.Disk.store', 'core.Disk._write', 'core.Disk.remove', 'core.Disk.filename', 'core.Cache.set', 'core.Cache.delete']))
     Ns = [1] if tier == 'quick' else [1, 2]
     writers = ['set', 'add', 'incr', 'pop', 'delete', 'touch']
     pairs = []
